@@ -222,6 +222,29 @@ NOT_YET = {}
 
 props = [json.loads(l)["id"] for l in open(os.path.join(VERIF, "properties.jsonl"))]
 checks = []
+# what was added after the first build (DESIGN.md 7.2, 7.5): appended to the description of each check
+SRC = ("spec/Parser.tla turns the token stream of Lexer.tla into the tree of Exec.tla, so the specification decides a template from "
+       "its bytes (RenderSrc); ")
+RANDOM = (" Binding T as well: seeded random programs (harness/g_exec.go) are executed with recording writer/loader/callbacks and "
+          "every recorded run is accepted or rejected event by event by spec/props/ExecTrace.tla, which computes the reference run from the "
+          "program it finds in the trace; header forms of the property's tags are replayed from source bytes (Tags_Src.tla).")
+ADD = {
+    "C01": " A negative module (C01_TokenBound) has TLC refute 'every token consumes input'; tokeniser-failing fragments are injected at every position of a corpus.",
+    "C02": RANDOM + " Loader family: every template-loading form x the library's own loaders x empty/missing/odd/non-string names.",
+    "C03": " Byte-level families: " + SRC + "C03_Src.tla (lone delimiter characters next to constructs, verbatim sandwiches) and Mix_Src.tla (balanced "
+           "sequences over all body-opening tags) are decided by that pipeline and rendered by the real code.",
+    "C04": " Binding T: seeded random operator chains are rendered by the real code and judged by C04_Trace.tla (reference parser + executor).",
+    "C05": RANDOM, "C06": RANDOM + " Byte-level family C06_Src.tla: " + SRC + "every balanced fragment sequence of a grammar (TLC checks the parser accepts exactly those) and one-deletion variants.",
+    "C07": RANDOM, "C08": RANDOM, "C09": " Header forms of extends/use/block are replayed from source bytes (Tags_Src.tla).",
+    "C10": RANDOM, "C11": RANDOM,
+    "C12": " Escaped segments are expanded by TLC with the reference escapers of Escape.tla (not with the escaper under test).",
+    "C16": " Every lookup is also written c[k] in a template (the template sees GetAttr's element, null on error); the Twig length filter and 'in' are compared with the traversal.",
+    "C17": " Random programs with write and load faults are validated by C17_Trace.tla; 21 unparseable sources reached through every loading construct.",
+    "C18": " Gated runs: a blocking user function holds all callers at the same point inside Execute (nine gated templates); runs with the library's FilesystemLoader; values shared between callers.",
+    "C19": " LexChan.tla has a buffered-channel variant (Cap) with its own negative configuration; all goroutines are counted at quiescence.",
+    "C20": " Byte-level family C20_Src.tla: " + SRC + "block structure of every tag kind (acceptance and the position of the offending tag name); sources reach the parser through the library's own loaders in two thirds of the cases.",
+}
+
 for pid in props:
     if pid not in CHECKS:
         continue
@@ -233,7 +256,7 @@ for pid in props:
         "evidence_file": "/verif/evidence/%s.json" % pid,
         "replay_cmd_template": "./check %s --replay {path}" % pid,
         "engine": "tla-model",
-        "level_claimed": {"category": "model_checking", "text": c["text"], "design_ref": "DESIGN.md §" + c["design"]},
+        "level_claimed": {"category": "model_checking", "text": c["text"] + ADD.get(pid, ""), "design_ref": "DESIGN.md §" + c["design"]},
         "level_note": c["note"],
         "technique": c["technique"],
     })
